@@ -27,17 +27,26 @@ def nontrivial(f, act, t):
 def main(chk):
     rng = random.Random(chk.seed)
     q = chk.quick
+    nr = 100 if q else 1000
+    if q:
+        configs = [
+            dict(name="default", casc="default", consts=oc.consts("default", 2, 4, acts=ACTS), invs=INVS, maxlen=4, nrandom=nr),
+            dict(name="orphan", casc="orphan", consts=oc.consts("orphan", 2, 3, acts=ACTS + ["Expunge"]), invs=INVS, maxlen=3, nrandom=nr, footprint=ACTS),
+            dict(name="dup", casc="default", consts=oc.consts("default", 2, 4, acts=MEM, init="loaded", dup=True), invs=["TypeOK", "BothSides_NoDup"],
+                 maxlen=4, nrandom=nr, footprint=MEM)]
+        deep = [dict(name="deep-default", casc="default", consts=oc.consts("default", 2, 6, acts=ACTS), invs=INVS),
+                dict(name="deep-none-mem", casc="none", consts=oc.consts("none", 2, 6, acts=MEM + ["CommitReload"], init="loaded"), invs=INVS)]
+    else:
+        configs = [
+            dict(name="default-2x3", casc="default", consts=oc.consts("default", 3, 4, acts=ACTS), invs=INVS, maxlen=4, nrandom=nr),
+            dict(name="default-2x2", casc="default", consts=oc.consts("default", 2, 5, acts=ACTS), invs=INVS, maxlen=5, nrandom=nr),
+            dict(name="orphan-2x3", casc="orphan", consts=oc.consts("orphan", 3, 4, acts=ACTS + ["Expunge"]), invs=INVS, maxlen=4, nrandom=nr, footprint=ACTS),
+            dict(name="dup", casc="default", consts=oc.consts("default", 2, 5, acts=MEM, init="loaded", dup=True), invs=["TypeOK", "BothSides_NoDup"],
+                 maxlen=5, nrandom=nr, footprint=MEM)]
+        deep = [dict(name="deep-default-2x3", casc="default", consts=oc.consts("default", 3, 5, acts=ACTS), invs=INVS),
+                dict(name="deep-default-2x2", casc="default", consts=oc.consts("default", 2, 7, acts=ACTS), invs=INVS),
+                dict(name="deep-none-mem-2x3", casc="none", consts=oc.consts("none", 3, 6, acts=MEM + ["CommitReload"], init="loaded"), invs=INVS)]
     nc = 2 if q else 3
-    d1, d2 = (4, 3) if q else (5, 4)
-    configs = [
-        dict(name="default", casc="default", consts=oc.consts("default", nc, d1, acts=ACTS), invs=INVS, maxlen=d1, nrandom=100 if q else 1000),
-        dict(name="orphan", casc="orphan", consts=oc.consts("orphan", nc, d2, acts=ACTS + ["Expunge"]), invs=INVS, maxlen=d2, nrandom=100 if q else 1000,
-             footprint=ACTS),
-        dict(name="dup", casc="default", consts=oc.consts("default", 2, d1, acts=MEM, init="loaded", dup=True), invs=["TypeOK", "BothSides_NoDup"],
-             maxlen=d1, nrandom=100 if q else 1000, footprint=MEM),
-    ]
-    deep = [dict(name="deep-default", casc="default", consts=oc.consts("default", nc, 6 if q else 7, acts=ACTS), invs=INVS),
-            dict(name="deep-none-mem", casc="none", consts=oc.consts("none", nc, 6 if q else 7, acts=MEM + ["CommitReload"], init="loaded"), invs=INVS)]
     expose = [dict(name="dup-bothsides", casc="default", consts=oc.consts("default", 2, 4, acts=MEM, init="loaded", dup=True), inv="BothSides",
                    sig={"scope": "list-held-the-same-child-twice"},
                    what="BothSides fails once a list collection has held the same child twice: the backref removes / keeps one occurrence "
